@@ -636,6 +636,8 @@ func c14API(c *Ctx) {
 	}
 }
 
+var c14FixedTrailer = metadata.Pairs("x-c14-fixed", "f")
+
 // snapRW records the header map at the moment the header block goes out.
 type snapRW struct {
 	*httptest.ResponseRecorder
@@ -687,8 +689,14 @@ func c14Web(c *Ctx) {
 			return err
 		}
 		if len(cur.hdr) > 0 {
-			st.SetHeader(cur.hdr) //nolint
+			// through the context API, one call per key (an interceptor and the method both add headers)
+			for k, vs := range cur.hdr {
+				if err := grpc.SetHeader(st.Context(), metadata.MD{k: vs}); err != nil {
+					return status.Errorf(codes.Internal, "SetHeader: %v", err)
+				}
+			}
 		}
+		st.SetTrailer(c14FixedTrailer) // a long-lived MD the handler reuses for every RPC
 		if cur.trBeforeMsgs {
 			st.SetTrailer(cur.tr)
 		}
@@ -818,6 +826,9 @@ func c14Web(c *Ctx) {
 			if strings.Join(gotv, "\x00") != strings.Join(want, "\x00") {
 				c.SpecFail("api-web-trailer", in, fmt.Sprintf("trailer frame %s=%q", k, gotv), fmt.Sprintf("%q", want), "C14/web/handler-trailer-lost", "a handler trailer does not reach the gRPC-web client in the trailer frame")
 			}
+		}
+		if strings.Join(got["x-c14-fixed"], ",") != "f" || len(c14FixedTrailer) != 1 || strings.Join(c14FixedTrailer["x-c14-fixed"], ",") != "f" {
+			c.SpecFail("api-web-trailer", in, fmt.Sprintf("trailer frame x-c14-fixed=%q; the handler's own MD is now %v", got["x-c14-fixed"], c14FixedTrailer), "x-c14-fixed=[f], the handler's MD untouched", "C14/web/trailer-md-shared", "trailer metadata of one RPC leaks into the handler's own metadata object (and from there into later RPCs)")
 		}
 		if len(got["grpc-status"]) != 1 || (cur.fail && got["grpc-status"][0] != "10") || (!cur.fail && got["grpc-status"][0] != "0") {
 			c.SpecFail("api-web-trailer", in, fmt.Sprintf("grpc-status=%q", got["grpc-status"]), "the handler's status", "C14/web/status-not-in-trailer-frame", "")
